@@ -107,10 +107,11 @@ def snapshot_of(new, f):
         d["req_" + k] = getattr(f.request, k)
     d["req_headers"] = f.request.headers.pairs
     d["req_trailers"] = None if isnone(f.request.trailers) else f.request.trailers.pairs
+    absent = f.response is None or isnone(f.response)          # a flow without a response (yet): nothing there to snapshot
     for k in RESP_FIELDS:
-        d["resp_" + k] = getattr(f.response, k)
-    d["resp_headers"] = f.response.headers.pairs
-    d["resp_trailers"] = None if isnone(f.response.trailers) else f.response.trailers.pairs
+        d["resp_" + k] = None if absent else getattr(f.response, k)
+    d["resp_headers"] = None if absent else f.response.headers.pairs
+    d["resp_trailers"] = None if absent or isnone(f.response.trailers) else f.response.trailers.pairs
     d["marked"] = f.marked
     d["comment"] = f.comment
     d["backup"] = f._backup
@@ -122,10 +123,11 @@ def restore_from(new_headers, f, s):
         setattr(f.request, k, getattr(s, "req_" + k))
     f.request.headers.pairs = s.req_headers
     f.request.trailers = None if isnone(s.req_trailers) else new_headers(s.req_trailers)
-    for k in RESP_FIELDS:
-        setattr(f.response, k, getattr(s, "resp_" + k))
-    f.response.headers.pairs = s.resp_headers
-    f.response.trailers = None if isnone(s.resp_trailers) else new_headers(s.resp_trailers)
+    if not (f.response is None or isnone(f.response)):
+        for k in RESP_FIELDS:
+            setattr(f.response, k, getattr(s, "resp_" + k))
+        f.response.headers.pairs = s.resp_headers
+        f.response.trailers = None if isnone(s.resp_trailers) else new_headers(s.resp_trailers)
     f.marked = s.marked
     f.comment = s.comment
     f._backup = s.backup
@@ -161,11 +163,16 @@ def install_state_summaries(vc):
         d["req_headers"] = req.fields["headers"].fields["pairs"]
         t = v.resolve(req.fields["trailers"])
         d["req_trailers"] = NONE if isnone(t) else t.fields["pairs"]
-        for k in RESP_FIELDS:
-            d["resp_" + k] = resp.fields[k]
-        d["resp_headers"] = resp.fields["headers"].fields["pairs"]
-        t = v.resolve(resp.fields["trailers"])
-        d["resp_trailers"] = NONE if isnone(t) else t.fields["pairs"]
+        resp = v.resolve(resp)
+        if isnone(resp):
+            for k in RESP_FIELDS + ["headers", "trailers"]:
+                d["resp_" + k] = NONE
+        else:
+            for k in RESP_FIELDS:
+                d["resp_" + k] = resp.fields[k]
+            d["resp_headers"] = resp.fields["headers"].fields["pairs"]
+            t = v.resolve(resp.fields["trailers"])
+            d["resp_trailers"] = NONE if isnone(t) else t.fields["pairs"]
         d["marked"], d["comment"], d["backup"] = f.fields["marked"], f.fields["comment"], f.fields["_backup"]
         return v.new(M + "Snapshot", **d)
 
@@ -179,11 +186,13 @@ def install_state_summaries(vc):
         req.fields["headers"].fields["pairs"] = s.fields["req_headers"]
         t = v.resolve(s.fields["req_trailers"])
         req.fields["trailers"] = NONE if isnone(t) else v.new(M + "HeadersModel", pairs=t)
-        for k in RESP_FIELDS:
-            resp.fields[k] = s.fields["resp_" + k]
-        resp.fields["headers"].fields["pairs"] = s.fields["resp_headers"]
-        t = v.resolve(s.fields["resp_trailers"])
-        resp.fields["trailers"] = NONE if isnone(t) else v.new(M + "HeadersModel", pairs=t)
+        resp = v.resolve(resp)
+        if not isnone(resp):
+            for k in RESP_FIELDS:
+                resp.fields[k] = s.fields["resp_" + k]
+            resp.fields["headers"].fields["pairs"] = s.fields["resp_headers"]
+            t = v.resolve(s.fields["resp_trailers"])
+            resp.fields["trailers"] = NONE if isnone(t) else v.new(M + "HeadersModel", pairs=t)
         f.fields["marked"], f.fields["comment"], f.fields["_backup"] = s.fields["marked"], s.fields["comment"], s.fields["backup"]
         return NONE
 
@@ -215,10 +224,11 @@ def observe(vc, f):
         out.append(("request." + k, getattr(f.request, k)))
     out.append(("request.headers", f.request.headers.pairs))
     out.append(("request.trailers", None if isnone(f.request.trailers) else f.request.trailers.pairs))
+    absent = f.response is None or isnone(f.response)
     for k in RESP_FIELDS:
-        out.append(("response." + k, getattr(f.response, k)))
-    out.append(("response.headers", f.response.headers.pairs))
-    out.append(("response.trailers", None if isnone(f.response.trailers) else f.response.trailers.pairs))
+        out.append(("response." + k, None if absent else getattr(f.response, k)))
+    out.append(("response.headers", None if absent else f.response.headers.pairs))
+    out.append(("response.trailers", None if absent or isnone(f.response.trailers) else f.response.trailers.pairs))
     out.append(("marked", f.marked))
     out.append(("comment", f.comment))
     return out
@@ -332,9 +342,10 @@ def s_put(vc):
     import mitmproxy.tools.web.app as webapp
     name = vc.case("document", list(DOCS))
     prior_backup = vc.case("prior_backup", [False, True])
+    has_response = vc.case("flow_has_response", [True, False]) if ("response" in name and not prior_backup) else True
     install_state_summaries(vc)
     req, resp, marked, comment = mk_state(vc, "", trailers=vc.case("request_has_trailers", [False, True]) if "trailers" in name and name.startswith("request") else False)
-    flow = vc.new(M + "FlowModel", request=req, response=resp, marked=marked, comment=comment, _backup=None, id="42")
+    flow = vc.new(M + "FlowModel", request=req, response=resp if has_response else None, marked=marked, comment=comment, _backup=None, id="42")
     backup_differs = False
     if prior_backup:
         # an earlier successful edit left a backup holding the state S0 from before that edit
